@@ -315,6 +315,7 @@ func c16Extract(path string) c16FactSet {
 		var rhs ast.Expr
 		var lhs ast.Expr
 		define := false
+		var inlineIf *ast.IfStmt // the idiom `if err := step(...); err != nil ... { ... }`
 		switch s := st.(type) {
 		case *ast.AssignStmt:
 			if len(s.Lhs) == 1 && len(s.Rhs) == 1 {
@@ -322,6 +323,25 @@ func c16Extract(path string) c16FactSet {
 			}
 		case *ast.ExprStmt:
 			rhs = s.X
+		case *ast.IfStmt:
+			if as, ok := s.Init.(*ast.AssignStmt); ok && s.Else == nil && len(as.Lhs) == 1 && len(as.Rhs) == 1 {
+				if id, ok := as.Lhs[0].(*ast.Ident); ok && id.Name == "err" {
+					cp := *s
+					cp.Init = nil
+					inlineIf = &cp
+					lhs, rhs = as.Lhs[0], as.Rhs[0]
+				}
+			}
+		}
+		// a file name bound earlier must not be re-bound
+		if as, ok := st.(*ast.AssignStmt); ok {
+			for _, l := range as.Lhs {
+				if id, ok := l.(*ast.Ident); ok {
+					if _, bound := names[id.Name]; bound {
+						return bad("file-name-reassigned:" + id.Name)
+					}
+				}
+			}
 		}
 		// lastMessages["X"] = ...
 		if ix, ok := lhs.(*ast.IndexExpr); ok {
@@ -365,6 +385,19 @@ func c16Extract(path string) c16FactSet {
 		pol := func() string {
 			if lhs == nil { // result discarded
 				return "log"
+			}
+			if inlineIf != nil {
+				nested := false // the body must not hide further steps
+				ast.Inspect(inlineIf.Body, func(n ast.Node) bool {
+					if nm, c := c16Callee(exprOf(n)); c != nil && (strings.HasPrefix(nm, "os.") && nm != "os.IsNotExist" || strings.HasPrefix(nm, "viper.")) {
+						nested = true
+					}
+					return true
+				})
+				if nested {
+					return "?"
+				}
+				return c16ErrPolicy(inlineIf)
 			}
 			if id, ok := lhs.(*ast.Ident); !ok || id.Name != "err" || next == nil {
 				return "?"
@@ -1426,6 +1459,9 @@ func c16GenR(r *Rng, tier string, idx int) (string, func() string) {
 			return "HARNESS-ERROR restore " + hexStr(err.Error())
 		}
 		if su.exit != 0 {
+			if os.Getenv("DVH_C16_DEBUG") != "" {
+				fmt.Fprintln(os.Stderr, su.stderr)
+			}
 			return "CRASH " + panicClass(su.stderr)
 		}
 		if su.Err != "" {
